@@ -23,7 +23,7 @@ KEY_KINDEX = "kindex-unclamped.k-draw-1.0"
 
 TRUSTED = [
     "Coq 8.16.1 kernel (vm_compute used in the refutation witness and two Examples; no native_compute)",
-    "axioms: none (Print Assumptions: Closed under the global context for all 12 theorems)",
+    "axioms: none (Print Assumptions: Closed under the global context for all 17 theorems)",
     "extraction: ExtrOcamlBasic only (bool, option, list, prod, unit, sumbool -> OCaml); nat/Z/positive stay Coq datatypes",
     "OCaml glue ocaml/dream_main.ml + common.ml: instantiates the number type with OCaml floats (IEEE binary64: +. -. *. /. > >=), "
     "log/sqrt/cos/sin = OCaml's, i.e. glibc libm, the same functions the C++ code calls (bit-identical; any disagreement would "
@@ -31,8 +31,8 @@ TRUSTED = [
     "stateful differential update); pdf / domain test / user update = finite tables recorded by the C++ driver",
     "C++ driver harness/dreamdrv.cpp (forks one child per case), g++ -O1 -ffp-contract=off -fsanitize=address,undefined",
     "modelled, not verified: SampleDREAM<form>() (both overloads), applyUniformUpdate, applyGaussianUpdate, TasmanianDREAM "
-    "setState/setPDFvalues/getIJKdelta/getChainState/getPDFvalue/saveStateHistory; the model follows line 449 as repaired by "
-    "fixes/C15-kindex.diff.  Not modelled: posterior(), the likelihood classes, the C wrapper tsgDreamSample, tsgCoreUniform01/rand()",
+    "setState (both overloads) / setPDFvalues (both overloads) / clearPDFvalues / clearHistory / expandHistory / getIJKdelta / "
+    "getChainState / getPDFvalue / saveStateHistory; the model follows line 449 as repaired (commit 26ea3d4).  Not modelled: posterior(), the likelihood classes, the C wrapper tsgDreamSample, tsgCoreUniform01/rand()",
     "H-RNG: get_random01 returns values in [0,1]; for binary64, 0 <= (size_t)(r*n) <= n follows from monotonicity of rounding "
     "(proved over Q for floor: c15_floor_meets_hypothesis); pdf and inside are pure (no side effects, point-wise)",
 ]
@@ -162,24 +162,56 @@ def gen_case(r, idx, tier):
         uc = []
     fk = r.choice(["one", "p0", "p25", "p50", "p100", "seq", "seq", "rand"])
     fc = [r.choice([0.0, 0.5, 1.0, -0.5, 0.75, 2.0]) for _ in range(r.choice([1, 2, 3, 5]))] if fk == "seq" else []
-    pre = 1 if r.random() < 0.2 else 0
-    # initial state: mostly inside the domain
     grid = [k / 8.0 for k in range(-16, 17)]
-    x0 = []
-    anyw = r.random() < 0.1
-    for _c in range(n):
-        v = [r.choice(grid) for _ in range(d)]
-        if not anyw:
-            if dk == "box":
-                v = [r.choice([g for g in grid if dc[0] <= g <= dc[1]]) for _ in range(d)]
-            elif dk == "half":
-                v[0] = r.choice([g for g in grid if g >= dc[0]])
-            elif dk == "lattice":
-                v[0] = (2 * r.choice([-1, 0, 1]) + r.choice([0.0, 0.25, 0.5, 0.75])) / dc[0]
-        x0 += v
-    runs = []
-    for _ in range(r.choice([1, 1, 1, 2, 3])):
-        runs.append((r.choice([0, 0, 1, 2, 5, -1, -3]), r.choice([0, 1, 1, 2, 2, 5, -1, -2])))
+
+    def gen_state(anyw):
+        x = []
+        for _c in range(n):
+            v = [r.choice(grid) for _ in range(d)]
+            if not anyw:
+                if dk == "box":
+                    v = [r.choice([g for g in grid if dc[0] <= g <= dc[1]]) for _ in range(d)]
+                elif dk == "half":
+                    v[0] = r.choice([g for g in grid if g >= dc[0]])
+                elif dk == "lattice":
+                    v[0] = (2 * r.choice([-1, 0, 1]) + r.choice([0.0, 0.25, 0.5, 0.75])) / dc[0]
+            x += v
+        return x
+
+    def gen_edit():
+        """one public operation of TasmanianDREAM that edits the chain state or the caches"""
+        k = r.choice(["setv", "setv", "setf", "setf", "setf", "pdfv", "pdfv", "pdff", "clearpdf", "clearhist", "expand"])
+        if k == "setv":
+            x = gen_state(r.random() < 0.1)
+            if r.random() < 0.08:
+                x = x + [0.5] if r.random() < 0.5 else x[:-1]      # wrong size: must throw and change nothing
+            return ["setv"] + x
+        if k == "setf":
+            if r.random() < 0.6:
+                return ["setf", "abs"] + gen_state(r.random() < 0.1)
+            return ["setf", "rel", r.choice([0.5, 1.0, -1.0, 0.0])] + [r.choice([0.0, 0.125, -0.25, 0.5]) for _ in range(n * d)]
+        if k == "pdfv":
+            if r.random() < 0.6:
+                return ["pdfv", "true"]
+            m = n if r.random() < 0.8 else n + r.choice([-1, 1])
+            return ["pdfv", "raw"] + [r.choice([0.5, 1.0, 0.25, -1.0, 0.0]) for _ in range(max(m, 0))]
+        if k == "expand":
+            return ["expand", r.choice([0, 1, 3])]
+        return [k]
+
+    # initial state: mostly inside the domain
+    x0 = gen_state(r.random() < 0.1)
+    ops = []
+    if r.random() < 0.15:
+        ops.append(["pdff"])
+    nruns = r.choice([1, 1, 1, 2, 2, 3, 4])
+    for q in range(nruns):
+        if q > 0 and r.random() < 0.75:
+            for _ in range(r.choice([1, 1, 2])):
+                ops.append(gen_edit())
+        ops.append(["run", r.choice([0, 0, 1, 2, 5, -1, -3]), r.choice([0, 1, 1, 2, 2, 5, -1, -2])])
+    if r.random() < 0.1:
+        ops.append(gen_edit())
     L = r.choice([7, 11, 23, 40, 64, 97])
     pend = r.choice([0.2, 0.25, 0.4, 0.6])
     rng = []
@@ -192,19 +224,47 @@ def gen_case(r, idx, tier):
         else:
             rng.append(r.random())
     return {"id": "g%s" % idx, "form": form, "n": n, "d": d, "pdf": [pk] + pc, "dom": [dk] + dc, "upd": [uk] + uc,
-            "diff": [fk] + fc, "pre": pre, "x0": x0, "runs": runs, "rng": rng}
+            "diff": [fk] + fc, "x0": x0, "ops": ops, "rng": rng}
+
+
+def norm_case(c):
+    """accept the first corpus format (pre/runs) as well"""
+    c = dict(c)
+    if "ops" not in c:
+        c["ops"] = ([["pdff"]] if c.get("pre") else []) + [["run", int(a), int(b)] for a, b in c.get("runs", [])]
+    c["ops"] = [list(o) for o in c["ops"]]
+    return c
+
+
+def op_str(o):
+    if o[0] in ("run", "expand"):
+        return " ".join([o[0]] + ["%d" % int(v) for v in o[1:]])
+    out = [o[0]]
+    for v in o[1:]:
+        out.append(v if isinstance(v, str) else hx(v))
+    return " ".join(out)
 
 
 def case_line(c):
     def sec(v):
         return " ".join([v[0]] + [hx(t) for t in v[1:]])
-    return "dream %s %d %d pdf: %s dom: %s upd: %s diff: %s pre: %d state: %s runs: %s rng: %s" % (
-        c["form"], c["n"], c["d"], sec(c["pdf"]), sec(c["dom"]), sec(c["upd"]), sec(c["diff"]), c["pre"],
-        " ".join(hx(v) for v in c["x0"]), " ".join("%d %d" % (a, b) for a, b in c["runs"]), " ".join(hx(v) for v in c["rng"]))
+    return "dream %s %d %d pdf: %s dom: %s upd: %s diff: %s state: %s ops: %s rng: %s" % (
+        c["form"], c["n"], c["d"], sec(c["pdf"]), sec(c["dom"]), sec(c["upd"]), sec(c["diff"]),
+        " ".join(hx(v) for v in c["x0"]), " | ".join(op_str(o) for o in c["ops"]), " ".join(hx(v) for v in c["rng"]))
+
+
+def runs_of(c):
+    return [(int(o[1]), int(o[2])) for o in c["ops"] if o[0] == "run"]
 
 
 WITNESS = {"id": "witnessF7", "form": "reg", "n": 3, "d": 2, "pdf": ["flat", 1.0], "dom": ["all"], "upd": ["none"], "diff": ["one"],
-           "pre": 0, "x0": [0.25, 0.5, 1.0, 2.0, 4.0, 8.0], "runs": [(0, 1)], "rng": [0.5, 1.0, 0.25]}
+           "x0": [0.25, 0.5, 1.0, 2.0, 4.0, 8.0], "ops": [["run", 0, 1]], "rng": [0.5, 1.0, 0.25]}
+
+# seeded change C15-2: the callback overload of setState forgot to invalidate the cached pdf values
+RESTART = {"id": "restartCallback", "form": "reg", "n": 4, "d": 2, "pdf": ["gauss", 0.0, 1.0], "dom": ["box", -2.0, 2.0], "upd": ["libuniform", 0.25],
+           "diff": ["p50"], "x0": [0.125, 0.0, -0.125, 0.25, 0.0, -0.25, 0.25, 0.125],
+           "ops": [["run", 2, 3], ["setf", "abs", 1.5, -1.5, 1.75, -1.5, 2.0, -1.5, 1.25, -1.5], ["run", 0, 3]],
+           "rng": [0.3125, 0.71875, 0.5, 0.9375, 0.125, 0.40625, 0.84375, 0.0625, 0.59375, 0.21875, 0.96875]}
 
 
 def corpus_cases():
@@ -213,11 +273,10 @@ def corpus_cases():
     if os.path.isdir(d):
         for f in sorted(os.listdir(d)):
             if f.endswith(".json"):
-                c = json.load(open(os.path.join(d, f)))
-                c["runs"] = [tuple(x) for x in c["runs"]]
-                out.append(c)
-    if not any(c["id"] == "witnessF7" for c in out):
-        out.insert(0, dict(WITNESS))
+                out.append(norm_case(json.load(open(os.path.join(d, f)))))
+    for w_ in (RESTART, WITNESS):
+        if not any(c["id"] == w_["id"] for c in out):
+            out.insert(0, norm_case(w_))
     return out
 
 
@@ -234,56 +293,63 @@ def parse_sections(toks):
 
 
 def parse_impl(text):
-    """-> dict id -> dict(params, pre=[events], runs=[dict(nb,nc,ev,end)], crash)"""
-    out, cur, run, batch = {}, None, None, None
+    """-> dict id -> dict(params, ops=[dict(kind,args,ev,fmap,end,exc)], px=[(x,v)], crash)"""
+    out, cur, op, batch = {}, None, None, None
     for line in text.split("\n"):
         t = line.split()
         if not t:
             continue
         k = t[0]
         if k == "case":
-            cur = {"id": t[1], "params": None, "pre": [], "runs": [], "crash": None, "exception": None}
+            cur = {"id": t[1], "params": None, "ops": [], "px": [], "crash": None}
             out[t[1]] = cur
-            run, batch = None, None
+            op, batch = None, None
             continue
         if cur is None:
             continue
-        ev = run["ev"] if run is not None else cur["pre"]
         if k == "params":
             cur["params"] = " ".join(t[1:])
-        elif k == "run":
-            run = {"nb": int(t[1]), "nc": int(t[2]), "ev": [], "end": None}
-            cur["runs"].append(run)
+        elif k == "op":
+            op = {"kind": t[1], "args": t[2:], "ev": [], "fmap": [], "end": None, "exc": None}
+            cur["ops"].append(op)
             batch = None
+        elif k == "PX":
+            i = t.index("=")
+            cur["px"].append(([fx(v) for v in t[1:i]], fx(t[i + 1])))
+        elif k == "crash":
+            cur["crash"] = (int(t[1]), int(t[2]))
+        elif op is None:
+            continue
         elif k in ("R", "Rd", "Ru", "D"):
-            ev.append((k, fx(t[1])))
+            op["ev"].append((k, fx(t[1])))
             batch = None
         elif k == "S":
             s = parse_sections(t[2:])
-            ev.append(("S", int(t[1]), [fx(v) for v in s.get("state:", [])], [fx(v) for v in s.get("pdf:", [])]))
+            op["ev"].append(("S", int(t[1]), [fx(v) for v in s.get("state:", [])], [fx(v) for v in s.get("pdf:", [])]))
             batch = None
-        elif k in ("U", "I"):
+        elif k in ("U", "I", "F"):
             i = t.index("=")
             a, b = [fx(v) for v in t[1:i]], [fx(v) for v in t[i + 1:]]
-            ev.append((k, a, b) if k == "U" else (k, a, b[0] != 0.0))
+            if k == "F":
+                op["fmap"].append((a, b))
+            else:
+                op["ev"].append((k, a, b) if k == "U" else (k, a, b[0] != 0.0))
             batch = None
         elif k == "PDF":
             batch = []
-            ev.append(("PDF", batch, int(t[1]), int(t[2])))
+            op["ev"].append(("PDF", batch, int(t[1]), int(t[2])))
         elif k == "P" and batch is not None:
             i = t.index("=")
             batch.append(([fx(v) for v in t[1:i]], fx(t[i + 1])))
-        elif k == "endrun" and run is not None:
-            s = parse_sections(t[1:])
-            run["end"] = {"state": [fx(v) for v in s.get("state:", [])], "pdfv": [fx(v) for v in s.get("pdfv:", [])],
-                          "ready": s.get("ready:", ["0"])[0] == "1", "accepted": int(s["accepted:"][0]), "rngpos": int(s["rngpos:"][0]),
-                          "numhist": int(s["numhist:"][0]), "hist": [fx(v) for v in s.get("hist:", [])],
-                          "pdfh": [fx(v) for v in s.get("pdfh:", [])]}
-            run, batch = None, None
-        elif k == "crash":
-            cur["crash"] = (int(t[1]), int(t[2]))
         elif k == "exception":
-            cur["exception"] = " ".join(t[1:])
+            op["exc"] = " ".join(t[1:])
+        elif k == "endop":
+            s = parse_sections(t[1:])
+            op["end"] = {"state": [fx(v) for v in s.get("state:", [])], "pdfv": [fx(v) for v in s.get("pdfv:", [])],
+                         "ready": s.get("ready:", ["0"])[0] == "1", "accepted": int(s["accepted:"][0]), "rngpos": int(s["rngpos:"][0]),
+                         "numhist": int(s["numhist:"][0]), "hist": [fx(v) for v in s.get("hist:", [])],
+                         "pdfh": [fx(v) for v in s.get("pdfh:", [])]}
+            op, batch = None, None
     return out
 
 
@@ -315,20 +381,19 @@ class Cursor:
 
 
 def check_case(c, imp, stats):
-    """Evaluate the statement of C15 on one case from the implementation's log only (no model involved).
-    Returns list of (key, message); raises nothing."""
+    """Evaluate the statement of C15 on one history (runs and edits on one TasmanianDREAM object) from the implementation's
+    log only (no model involved).  Returns (list of (key, message), info)."""
     n, d, logform = c["n"], c["d"], c["form"] == "log"
     dk, dc = c["dom"][0], c["dom"][1:]
     uk, uc = c["upd"][0], c["upd"][1:]
     fk = c["diff"][0]
     probs = []
-    chains = [c["x0"][i * d:(i + 1) * d] for i in range(n)]
-    inside_start = all(dom_inside(dk, dc, x) for x in chains)
-    stats["inside_start"] += inside_start
-    pdfv, ready = None, False
-    hist, pdfh, acc = [], [], 0
+    info = {"k1": False, "accepted": 0, "rejected": 0, "iterations": 0, "edits": 0, "runs_after_edit": 0}
+    S = {"chains": [c["x0"][i * d:(i + 1) * d] for i in range(n)], "pdfv": [], "ready": False, "hist": [], "pdfh": [], "acc": 0,
+         "tainted": False,      # the user asserted cached values that are not the pdf of the chains: the premise of 'recorded = pdf' is void
+         "edited": None}        # last edit since the previous run
+    stats["inside_start"] += all(dom_inside(dk, dc, x) for x in S["chains"])
     ptab = {}
-    info = {"k1": False, "accepted": 0, "rejected": 0, "iterations": 0}
 
     def note_batch(b):
         for x, v in b:
@@ -337,171 +402,275 @@ def check_case(c, imp, stats):
                 raise Deviation("driver-pdf-not-pure", "scripted pdf returned two values for one point")
             ptab[hk(x)] = v
 
-    try:
-        if c["pre"]:
-            cur = Cursor(imp["pre"])
-            e = cur.take("PDF", "explicit setPDFvalues")
+    def flat(cs):
+        return [v for x in cs for v in x]
+
+    def first_bad_record(e, h0, p0len):
+        """first newly recorded (sample, probability) whose probability is not the pdf at the sample"""
+        for s_ in range(len(e["pdfh"]) - p0len):
+            x = e["hist"][h0 + s_ * d: h0 + (s_ + 1) * d]
+            tv = ptab.get(hk(x))
+            if tv is None or not same(tv, e["pdfh"][p0len + s_]):
+                return "recorded probability %s of sample %s is not the pdf at that sample (%s)" % (
+                    hx(e["pdfh"][p0len + s_]), [hx(v) for v in x], "never evaluated there" if tv is None else hx(tv))
+        return None
+
+    def do_run(ri, nb, nc, op):
+        chains, pdfv = S["chains"], S["pdfv"]
+        all_inside = all(dom_inside(dk, dc, x) for x in chains)
+        cur = Cursor(op["ev"])
+        h0, p0len = len(S["hist"]), len(S["pdfh"])
+        hist, pdfh, acc = list(S["hist"]), list(S["pdfh"]), S["acc"]
+        if S["edited"]:
+            info["runs_after_edit"] += 1
+            stats["runs_after_edit"] += 1
+        if not S["ready"]:
+            nxt = cur.peek()
+            if nxt is None or nxt[0] != "PDF":
+                for e2 in op["ev"]:
+                    if e2[0] == "PDF":
+                        note_batch(e2[1])
+                bad = first_bad_record(op["end"], h0, p0len) if op["end"] else None
+                raise Deviation("stale-pdf-cache", "op %d: the cached probability values were invalid (%s) but SampleDREAM(%d,%d) did not "
+                                "re-evaluate them: accept decisions are taken against the values of the previous chain state%s"
+                                % (ri, S["edited"] or "never initialised", nb, nc, "; " + bad if bad else ""))
+            e = cur.take("PDF", "initialisation of the cached pdf values")
             note_batch(e[1])
-            if not samel([v for x in chains for v in x], [v for x, _ in e[1] for v in x]):
+            if not samel(flat(chains), [v for x, _ in e[1] for v in x]):
                 raise Deviation("init-batch", "setPDFvalues(pdf) did not evaluate the whole state")
-            pdfv, ready = [v for _, v in e[1]], True
-        for ri, (nb, nc) in enumerate(c["runs"]):
-            if ri >= len(imp["runs"]):
-                raise Deviation("log-truncated", "run %d missing from the log" % ri)
-            run = imp["runs"][ri]
-            cur = Cursor(run["ev"])
-            h0, p0len = len(hist), len(pdfh)
-            if not ready:
-                e = cur.take("PDF", "initialisation of the cached pdf values")
-                note_batch(e[1])
-                if not samel([v for x in chains for v in x], [v for x, _ in e[1] for v in x]):
-                    raise Deviation("init-batch", "setPDFvalues(pdf) did not evaluate the whole state")
-                pdfv, ready = [v for _, v in e[1]], True
-            total = max(nb, 0) + max(nc, 0)
-            for t in range(total):
-                stats["iterations"] += 1
-                info["iterations"] += 1
-                props, valid = [], []
-                for i in range(n):
-                    rj = cur.take("R", "draw of j")[1]
-                    rk = cur.take("R", "draw of k")[1]
-                    for r_ in (rj, rk):
-                        if not (0.0 <= r_ <= 1.0):
-                            raise Deviation("driver-rng-range", "scripted rng outside [0,1]")
-                    if i == 0:
-                        s = cur.take("S", "snapshot at the start of the iteration")
-                        if not samel(s[2], [v for x in chains for v in x]) or not samel(s[3], pdfv):
-                            raise Deviation("state-after-iteration", "run %d iteration %d starts from a state/cached pdf that is not the "
-                                            "result of the accept rule applied to the previous iteration" % (ri, t))
-                    if fk == "rand":
-                        cur.take("Rd", "draw inside the differential update")
-                    w = cur.take("D", "differential update")[1]
-                    jraw, kraw = int(rj * n), int(rk * n)
-                    if not (0 <= jraw <= n and 0 <= kraw <= n):
-                        raise Deviation("trunc-hypothesis", "(size_t)(r*n) outside [0,n] for r in [0,1]: r=%s/%s n=%d" % (hx(rj), hx(rk), n))
-                    if kraw >= n:
-                        info["k1"] = True
-                        stats["k_draw_clamped"] += 1
-                    if jraw >= n:
-                        stats["j_draw_clamped"] += 1
-                    j, k = min(jraw, n - 1), min(kraw, n - 1)
-                    if cur.at_end() and imp["crash"] is not None:
-                        raise Deviation("crash-in-proposal", "kraw=%d n=%d w=%s" % (kraw, n, hx(w)))
-                    if w != 0.0:
-                        p0 = [chains[i][q] + fmul(w, (chains[k][q] - chains[j][q])) for q in range(d)]
-                    else:
-                        p0 = list(chains[i])
-                    if uk in ("none", "shift", "twist"):
-                        u = cur.take("U", "independent update")
-                        if not samel(u[1], p0):
-                            raise Deviation("proposal-formula", "run %d iteration %d chain %d: proposal %s is not s_i + w (s_k - s_j) = %s "
-                                            "(j=%d k=%d w=%s)" % (ri, t, i, [hx(v) for v in u[1]], [hx(v) for v in p0], j, k, hx(w)))
-                        p = u[2]
-                    elif uk == "libuniform" and uc[0] != 0.0:
-                        p = []
-                        for q in range(d):
-                            uu = cur.take("Ru", "uniform update draw")[1]
-                            p.append(p0[q] + fmul(uc[0], (2.0 * uu - 1.0)))
-                    elif uk == "libgauss" and uc[0] != 0.0:
-                        p, g, tic = [], 0.0, False
-                        for q in range(d):
-                            tic = not tic
-                            if tic:
-                                u1 = cur.take("Ru", "gaussian update draw")[1]
-                                rad = fmul(uc[0], fsqrt(fmul(-2.0, flog(u1))))
-                                u2 = cur.take("Ru", "gaussian update draw")[1]
-                                tt = 2.0 * 3.14159265358979323846 * u2
-                                p.append(p0[q] + fmul(rad, ftrig(math.cos, tt)))
-                                g = fmul(rad, ftrig(math.sin, tt))
-                            else:
-                                p.append(p0[q] + g)
-                    else:
-                        p = p0
-                    e = cur.take("I", "domain test")
-                    if not samel(e[1], p):
-                        raise Deviation("proposal-formula", "run %d iteration %d chain %d: tested point %s is not the proposal "
-                                        "s_i + w (s_k - s_j) + update = %s (j=%d k=%d w=%s)" % (ri, t, i, [hx(v) for v in e[1]], [hx(v) for v in p], j, k, hx(w)))
-                    props.append(e[1])
-                    valid.append(e[2])
-                    stats["proposals"] += 1
-                    stats["outside"] += (not e[2])
-                cands = [p for p, b in zip(props, valid) if b]
-                vals = []
-                if cands:
-                    e = cur.take("PDF", "batched pdf of the in-domain proposals")
-                    note_batch(e[1])
-                    if len(e[1]) != len(cands) or e[3] != len(cands) or not all(samel(a, b[0]) for a, b in zip(cands, e[1])):
-                        raise Deviation("pdf-batch", "run %d iteration %d: the pdf batch is not exactly the in-domain proposals in chain order" % (ri, t))
-                    vals = [v for _, v in e[1]]
-                    stats["batches"] += 1
-                elif cur.peek() is not None and cur.peek()[0] == "PDF":
-                    raise Deviation("pdf-batch", "run %d iteration %d: pdf called although no proposal is inside" % (ri, t))
+            pdfv = [v for _, v in e[1]]
+            S["tainted"] = False
+        total = max(nb, 0) + max(nc, 0)
+        for t in range(total):
+            stats["iterations"] += 1
+            info["iterations"] += 1
+            props, valid = [], []
+            for i in range(n):
+                rj = cur.take("R", "draw of j")[1]
+                rk = cur.take("R", "draw of k")[1]
+                for r_ in (rj, rk):
+                    if not (0.0 <= r_ <= 1.0):
+                        raise Deviation("driver-rng-range", "scripted rng outside [0,1]")
+                if i == 0:
+                    s = cur.take("S", "snapshot at the start of the iteration")
+                    if not samel(s[2], flat(chains)) or not samel(s[3], pdfv):
+                        raise Deviation("state-after-iteration", "op %d iteration %d starts from a state/cached pdf that is not the "
+                                        "result of the accept rule applied to the previous iteration (or of the last edit)" % (ri, t))
+                if fk == "rand":
+                    cur.take("Rd", "draw inside the differential update")
+                w = cur.take("D", "differential update")[1]
+                jraw, kraw = int(rj * n), int(rk * n)
+                if not (0 <= jraw <= n and 0 <= kraw <= n):
+                    raise Deviation("trunc-hypothesis", "(size_t)(r*n) outside [0,n] for r in [0,1]: r=%s/%s n=%d" % (hx(rj), hx(rk), n))
+                if kraw >= n:
+                    info["k1"] = True
+                    stats["k_draw_clamped"] += 1
+                if jraw >= n:
+                    stats["j_draw_clamped"] += 1
+                j, k = min(jraw, n - 1), min(kraw, n - 1)
+                if cur.at_end() and imp["crash"] is not None:
+                    raise Deviation("crash-in-proposal", "kraw=%d n=%d w=%s" % (kraw, n, hx(w)))
+                if w != 0.0:
+                    p0 = [chains[i][q] + fmul(w, (chains[k][q] - chains[j][q])) for q in range(d)]
                 else:
-                    stats["empty_batches"] += 1
-                nstate, nvals, accepted, vi = [], [], 0, 0
-                for i in range(n):
-                    keep = False
-                    if valid[i]:
-                        v = vals[vi]
-                        vi += 1
-                        if v > pdfv[i]:
-                            keep = True
-                            stats["accept_better"] += 1
+                    p0 = list(chains[i])
+                if uk in ("none", "shift", "twist"):
+                    u = cur.take("U", "independent update")
+                    if not samel(u[1], p0):
+                        raise Deviation("proposal-formula", "op %d iteration %d chain %d: proposal %s is not s_i + w (s_k - s_j) = %s "
+                                        "(j=%d k=%d w=%s)" % (ri, t, i, [hx(v) for v in u[1]], [hx(v) for v in p0], j, k, hx(w)))
+                    p = u[2]
+                elif uk == "libuniform" and uc[0] != 0.0:
+                    p = []
+                    for q in range(d):
+                        uu = cur.take("Ru", "uniform update draw")[1]
+                        p.append(p0[q] + fmul(uc[0], (2.0 * uu - 1.0)))
+                elif uk == "libgauss" and uc[0] != 0.0:
+                    p, g, tic = [], 0.0, False
+                    for q in range(d):
+                        tic = not tic
+                        if tic:
+                            u1 = cur.take("Ru", "gaussian update draw")[1]
+                            rad = fmul(uc[0], fsqrt(fmul(-2.0, flog(u1))))
+                            u2 = cur.take("Ru", "gaussian update draw")[1]
+                            tt = 2.0 * 3.14159265358979323846 * u2
+                            p.append(p0[q] + fmul(rad, ftrig(math.cos, tt)))
+                            g = fmul(rad, ftrig(math.sin, tt))
                         else:
-                            u = cur.take("R", "uniform draw of the accept test")[1]
-                            if logform:
-                                lhs, rhs = v - pdfv[i], flog(u)
-                            else:
-                                lhs, rhs = fdiv(v, pdfv[i]), u
-                            keep = lhs >= rhs
-                            stats["accept_draw" if keep else "reject_draw"] += 1
-                            if lhs == rhs:
-                                stats["accept_tie"] += 1
-                    if keep:
-                        nstate.append(props[i])
-                        nvals.append(vals[vi - 1])
-                        accepted += 1
+                            p.append(p0[q] + g)
+                else:
+                    p = p0
+                e = cur.take("I", "domain test")
+                if not samel(e[1], p):
+                    raise Deviation("proposal-formula", "op %d iteration %d chain %d: tested point %s is not the proposal "
+                                    "s_i + w (s_k - s_j) + update = %s (j=%d k=%d w=%s)" % (ri, t, i, [hx(v) for v in e[1]], [hx(v) for v in p], j, k, hx(w)))
+                props.append(e[1])
+                valid.append(e[2])
+                stats["proposals"] += 1
+                stats["outside"] += (not e[2])
+            cands = [p for p, b in zip(props, valid) if b]
+            vals = []
+            if cands:
+                e = cur.take("PDF", "batched pdf of the in-domain proposals")
+                note_batch(e[1])
+                if len(e[1]) != len(cands) or e[3] != len(cands) or not all(samel(a, b[0]) for a, b in zip(cands, e[1])):
+                    raise Deviation("pdf-batch", "op %d iteration %d: the pdf batch is not exactly the in-domain proposals in chain order" % (ri, t))
+                vals = [v for _, v in e[1]]
+                stats["batches"] += 1
+            elif cur.peek() is not None and cur.peek()[0] == "PDF":
+                raise Deviation("pdf-batch", "op %d iteration %d: pdf called although no proposal is inside" % (ri, t))
+            else:
+                stats["empty_batches"] += 1
+            nstate, nvals, accepted, vi = [], [], 0, 0
+            for i in range(n):
+                keep = False
+                if valid[i]:
+                    v = vals[vi]
+                    vi += 1
+                    if v > pdfv[i]:
+                        keep = True
+                        stats["accept_better"] += 1
                     else:
-                        nstate.append(chains[i])
-                        nvals.append(pdfv[i])
-                chains, pdfv = nstate, nvals
-                info["accepted"] += accepted
-                info["rejected"] += n - accepted
-                if t >= nb:
-                    hist += [v for x in chains for v in x]
-                    pdfh += list(pdfv)
-                    acc += accepted
-            if not cur.at_end():
-                raise Deviation("callback-order", "run %d: %d callbacks beyond the last iteration (first: %s)" % (ri, len(run["ev"]) - cur.i, cur.peek()[0]))
-            e = run["end"]
-            if e is None:
-                raise Deviation("log-truncated", "run %d did not return (%s)" % (ri, imp["crash"] or imp["exception"]))
-            # --- the statement of the property on the returned object (independent of the re-evaluation above) ---
-            want = max(nc, 0) * n
-            if len(e["hist"]) != h0 + want * d or len(e["pdfh"]) != p0len + want or e["numhist"] != p0len + want:
-                raise Deviation("history-count", "run %d (burnup %d, collect %d): history grew by %d scalars / %d values, expected %d / %d"
-                                % (ri, nb, nc, len(e["hist"]) - h0, len(e["pdfh"]) - p0len, want * d, want))
-            if not samel(e["hist"][:h0], hist[:h0]) or not samel(e["pdfh"][:p0len], pdfh[:p0len]):
-                raise Deviation("history-content", "run %d overwrote earlier history" % ri)
-            for s_ in range(want):
-                x = e["hist"][h0 + s_ * d: h0 + (s_ + 1) * d]
-                pv_ = e["pdfh"][p0len + s_]
-                if inside_start and not dom_inside(dk, dc, x):
-                    raise Deviation("sample-outside-domain", "run %d: recorded sample %s is outside the domain" % (ri, [hx(v) for v in x]))
-                tv = ptab.get(hk(x))
-                if tv is None or not same(tv, pv_):
-                    raise Deviation("pdf-history-inconsistent", "run %d: recorded probability %s of sample %s is not the pdf at that sample (%s)"
-                                    % (ri, hx(pv_), [hx(v) for v in x], "never evaluated" if tv is None else hx(tv)))
+                        u = cur.take("R", "uniform draw of the accept test")[1]
+                        if logform:
+                            lhs, rhs = v - pdfv[i], flog(u)
+                        else:
+                            lhs, rhs = fdiv(v, pdfv[i]), u
+                        keep = lhs >= rhs
+                        stats["accept_draw" if keep else "reject_draw"] += 1
+                        if lhs == rhs:
+                            stats["accept_tie"] += 1
+                if keep:
+                    nstate.append(props[i])
+                    nvals.append(vals[vi - 1])
+                    accepted += 1
+                else:
+                    nstate.append(chains[i])
+                    nvals.append(pdfv[i])
+            chains, pdfv = nstate, nvals
+            info["accepted"] += accepted
+            info["rejected"] += n - accepted
+            if t >= nb:
+                hist += flat(chains)
+                pdfh += list(pdfv)
+                acc += accepted
+        if not cur.at_end():
+            raise Deviation("callback-order", "op %d: %d callbacks beyond the last iteration (first: %s)" % (ri, len(op["ev"]) - cur.i, cur.peek()[0]))
+        e = op["end"]
+        if e is None:
+            raise Deviation("log-truncated", "op %d (run) did not return (%s)" % (ri, imp["crash"]))
+        # --- the statement of the property on the returned object (independent of the re-evaluation above) ---
+        want = max(nc, 0) * n
+        if len(e["hist"]) != h0 + want * d or len(e["pdfh"]) != p0len + want or e["numhist"] != p0len + want:
+            raise Deviation("history-count", "op %d (burnup %d, collect %d): history grew by %d scalars / %d values, expected %d / %d"
+                            % (ri, nb, nc, len(e["hist"]) - h0, len(e["pdfh"]) - p0len, want * d, want))
+        if not samel(e["hist"][:h0], hist[:h0]) or not samel(e["pdfh"][:p0len], pdfh[:p0len]):
+            raise Deviation("history-content", "op %d overwrote earlier history" % ri)
+        for s_ in range(want):
+            x = e["hist"][h0 + s_ * d: h0 + (s_ + 1) * d]
+            if all_inside and not dom_inside(dk, dc, x):
+                raise Deviation("sample-outside-domain", "op %d: recorded sample %s is outside the domain" % (ri, [hx(v) for v in x]))
+        if not S["tainted"]:
+            bad = first_bad_record(e, h0, p0len)
+            if bad:
+                raise Deviation("pdf-history-inconsistent", "op %d%s: %s" % (ri, " (first run after %s)" % S["edited"] if S["edited"] else "", bad))
             stats["samples_checked"] += want
-            # --- and against the re-evaluated accept rule ---
-            if not samel(e["state"], [v for x in chains for v in x]) or not samel(e["pdfv"], pdfv):
-                raise Deviation("accept-rule", "run %d: final state/cached pdf differ from the accept rule re-evaluated on the logged values" % ri)
-            if not samel(e["hist"], hist) or not samel(e["pdfh"], pdfh):
-                raise Deviation("history-content", "run %d: appended history is not the sequence of states after each collected iteration" % ri)
-            if e["accepted"] != acc:
-                raise Deviation("accepted-counter", "run %d: acceptance counter %d, expected %d" % (ri, e["accepted"], acc))
-            if not e["ready"]:
-                raise Deviation("pdf-ready", "cached pdf values not marked initialised after a run")
+        else:
+            stats["samples_skipped_user_asserted_cache"] += want
+        # --- and against the re-evaluated accept rule ---
+        if not samel(e["state"], flat(chains)) or not samel(e["pdfv"], pdfv):
+            raise Deviation("accept-rule", "op %d: final state/cached pdf differ from the accept rule re-evaluated on the logged values" % ri)
+        if not samel(e["hist"], hist) or not samel(e["pdfh"], pdfh):
+            raise Deviation("history-content", "op %d: appended history is not the sequence of states after each collected iteration" % ri)
+        if e["accepted"] != acc:
+            raise Deviation("accepted-counter", "op %d: acceptance counter %d, expected %d" % (ri, e["accepted"], acc))
+        if not e["ready"]:
+            raise Deviation("pdf-ready", "cached pdf values not marked initialised after a run")
+        S.update({"chains": chains, "pdfv": pdfv, "ready": True, "hist": hist, "pdfh": pdfh, "acc": acc, "edited": None})
+
+    def do_edit(ri, o, op):
+        """the documented effect of the public editing operations (tsgDreamState.hpp)"""
+        k = o[0]
+        info["edits"] += 1
+        stats["edit_" + k] = stats.get("edit_" + k, 0) + 1
+        threw = False
+        if k == "setv":
+            x = [float(v) for v in o[1:]]
+            if len(x) == n * d:
+                S["chains"], S["ready"], S["tainted"] = [x[i * d:(i + 1) * d] for i in range(n)], False, False
+            else:
+                threw = True
+        elif k == "setf":
+            rel = o[1] == "rel"
+            a = float(o[2]) if rel else 0.0
+            v = [float(t) for t in o[(3 if rel else 2):]]
+            new = []
+            for ci in range(n):
+                old = S["chains"][ci]
+                new.append([(fmul(a, old[q]) + v[(ci * d + q) % len(v)]) if rel else v[(ci * d + q) % len(v)] for q in range(d)])
+            S["chains"], S["ready"], S["tainted"] = new, False, False
+        elif k == "pdfv":
+            if o[1] == "true":
+                for x, v in imp["px"]:
+                    ptab.setdefault(hk(x), v)
+                vals = [ptab.get(hk(x)) for x in S["chains"]]
+                if any(v is None for v in vals):
+                    raise Deviation("log-malformed", "PX lines missing")
+                S["pdfv"], S["ready"], S["tainted"] = vals, True, False
+            else:
+                vals = [float(t) for t in o[2:]]
+                if len(vals) == n:
+                    truth = [ptab.get(hk(x)) for x in S["chains"]]
+                    S["pdfv"], S["ready"] = vals, True
+                    S["tainted"] = not all(tv is not None and same(tv, v) for tv, v in zip(truth, vals))
+                else:
+                    threw = True
+        elif k == "pdff":
+            cur = Cursor(op["ev"])
+            e = cur.take("PDF", "explicit setPDFvalues(pdf)")
+            note_batch(e[1])
+            if not samel(flat(S["chains"]), [v for x, _ in e[1] for v in x]) or not cur.at_end():
+                raise Deviation("init-batch", "setPDFvalues(pdf) did not evaluate exactly the whole state")
+            S["pdfv"], S["ready"], S["tainted"] = [v for _, v in e[1]], True, False
+        elif k == "clearpdf":
+            S["pdfv"], S["ready"], S["tainted"] = [], False, False
+        elif k == "clearhist":
+            S["hist"], S["pdfh"], S["acc"] = [], [], 0
+        if k != "pdff" and op["ev"]:
+            raise Deviation("callback-order", "op %d (%s) invoked callbacks" % (ri, k))
+        if threw != (op["exc"] is not None):
+            raise Deviation("edit-exception", "op %d (%s): %s" % (ri, op_str(o)[:60], "no exception for a wrong size" if threw else "threw " + str(op["exc"])))
+        if threw:
+            stats["edits_rejected"] += 1
+        e = op["end"]
+        if e is None:
+            raise Deviation("log-truncated", "op %d (%s) did not return" % (ri, k))
+        if not samel(e["state"], flat(S["chains"])) or not samel(e["hist"], S["hist"]) or not samel(e["pdfh"], S["pdfh"]) or e["accepted"] != S["acc"]:
+            raise Deviation("edit-effect", "op %d (%s): chain state / history / counter after the edit are not the documented ones" % (ri, k))
+        if S["ready"] and (not e["ready"] or not samel(e["pdfv"], S["pdfv"])):
+            raise Deviation("edit-effect", "op %d (%s): the cached values are not the ones set" % (ri, k))
+        # a cache that should be invalid but is still marked valid shows in the NEXT run (stale-pdf-cache); remember it for histories
+        # that end here
+        S["flag_mismatch"] = (not S["ready"]) and e["ready"]
+        if k in ("setv", "setf", "clearpdf") and not threw:
+            S["edited"] = {"setv": "setState(vector)", "setf": "setState(callback)", "clearpdf": "clearPDFvalues()"}[k]
+        elif k in ("pdfv", "pdff") and not threw:
+            S["edited"] = "setPDFvalues"
+
+    try:
+        for ri, o in enumerate(c["ops"]):
+            if ri >= len(imp["ops"]):
+                raise Deviation("log-truncated", "op %d missing from the log" % ri)
+            op = imp["ops"][ri]
+            if op["kind"] != o[0]:
+                raise Deviation("log-malformed", "op %d is %s in the log, %s in the case" % (ri, op["kind"], o[0]))
+            if o[0] == "run":
+                do_run(ri, int(o[1]), int(o[2]), op)
+                S["flag_mismatch"] = False
+            else:
+                do_edit(ri, o, op)
+        if S.get("flag_mismatch"):
+            raise Deviation("stale-pdf-cache", "after %s the cached probability values are still marked valid" % S["edited"])
     except Deviation as dv:
         probs.append((dv.key, str(dv)))
     except (IndexError, KeyError, ValueError, TypeError) as ex:
@@ -564,7 +733,7 @@ def run(res, tier, seed, replay_cases=None):
     cases = corpus_cases()
     pairs = []
     if replay_cases is not None:
-        cases, ncase, nsplit = [dict(c, runs=[tuple(x) for x in c["runs"]]) for c in replay_cases], 0, 0
+        cases, ncase, nsplit = [norm_case(c) for c in replay_cases], 0, 0
         if len(cases) == 2 and cases[0]["id"].endswith("A") and cases[1]["id"].endswith("B"):
             pairs.append((cases[0]["id"], cases[1]["id"]))
     for i in range(ncase):
@@ -574,8 +743,16 @@ def run(res, tier, seed, replay_cases=None):
         base = gen_case(r, "s%d" % i, tier)
         b = r.choice([0, 0, 1, 2, 5, -1, -2])
         cs = [r.choice([0, 1, 1, 2, 2, 5]) for _ in range(r.choice([2, 2, 3]))]
-        a = dict(base, id="s%dA" % i, runs=[(b, cs[0])] + [(0, x) for x in cs[1:]])
-        bb = dict(base, id="s%dB" % i, runs=[(b, sum(cs))])
+        head = [o for o in base["ops"][:1] if o[0] == "pdff"]
+        opsa = head + [["run", b, cs[0]]]
+        for x in cs[1:]:
+            # edits that must not matter between the halves: expandHistory, re-asserting / re-evaluating the (coherent) cache
+            q = r.random()
+            if q < 0.45:
+                opsa.append(r.choice([["expand", 2], ["pdfv", "true"], ["pdff"]]))
+            opsa.append(["run", 0, x])
+        a = dict(base, id="s%dA" % i, ops=opsa)
+        bb = dict(base, id="s%dB" % i, ops=head + [["run", b, sum(cs)]])
         cases += [a, bb]
         pairs.append((a["id"], bb["id"]))
     byid = {c["id"]: c for c in cases}
@@ -594,7 +771,7 @@ def run(res, tier, seed, replay_cases=None):
 
     # correspondence
     mism, okc, skipped = [], 0, 0
-    cstats = {"events": 0, "accepted": 0, "outside": 0, "draws": 0, "hist": 0, "runs": 0}
+    cstats = {"events": 0, "accepted": 0, "outside": 0, "draws": 0, "hist": 0, "runs": 0, "edits": 0}
     if runner:
         rc2, mo, me = vlib.run([runner, implf], timeout=1500)
         for line in mo.split("\n"):
@@ -616,7 +793,8 @@ def run(res, tier, seed, replay_cases=None):
 
     # direct evaluation
     stats = {k: 0 for k in ["inside_start", "iterations", "proposals", "outside", "batches", "empty_batches", "accept_better", "accept_draw",
-                            "reject_draw", "accept_tie", "samples_checked", "k_draw_clamped", "j_draw_clamped", "crashes", "split_pairs_checked"]}
+                            "reject_draw", "accept_tie", "samples_checked", "k_draw_clamped", "j_draw_clamped", "crashes", "split_pairs_checked",
+                            "runs_after_edit", "samples_skipped_user_asserted_cache", "edits_rejected"]}
     nviol, perkey, bad_ids, k1_ids, infos = 0, {}, set(), set(), {}
 
     def report(key, what, c, extra=None, c2=None):
@@ -666,7 +844,7 @@ def run(res, tier, seed, replay_cases=None):
     for ia, ib in pairs:
         if ia in bad_ids or ib in bad_ids:
             continue
-        ea, eb = impl[ia]["runs"][-1]["end"], impl[ib]["runs"][-1]["end"]
+        ea, eb = impl[ia]["ops"][-1]["end"], impl[ib]["ops"][-1]["end"]
         if ea is None or eb is None:
             continue
         stats["split_pairs_checked"] += 1
@@ -675,7 +853,7 @@ def run(res, tier, seed, replay_cases=None):
         if diffs:
             nviol += 1
             report("split-runs", "runs %s followed one another differ from the single run %s in %s [cases %s %s]"
-                   % (byid[ia]["runs"], byid[ib]["runs"], ",".join(diffs), ia, ib), byid[ia], c2=byid[ib])
+                   % (runs_of(byid[ia]), runs_of(byid[ib]), ",".join(diffs), ia, ib), byid[ia], c2=byid[ib])
 
     hyp_checked, hyp_bad = check_trunc_hypothesis()
     if hyp_bad:
@@ -698,10 +876,11 @@ def run(res, tier, seed, replay_cases=None):
 
     # coverage
     seen, nontriv = set(), 0
-    dist = {"form": {}, "chains": {}, "dims": {}, "pdf": {}, "domain": {}, "update": {}, "diff": {}, "runs": {}}
+    dist = {"form": {}, "chains": {}, "dims": {}, "pdf": {}, "domain": {}, "update": {}, "diff": {}, "runs": {}, "edits_between_runs": {}}
     for c in cases:
         for k, v in (("form", c["form"]), ("chains", c["n"]), ("dims", c["d"]), ("pdf", c["pdf"][0]), ("domain", c["dom"][0]),
-                     ("update", c["upd"][0]), ("diff", c["diff"][0]), ("runs", len(c["runs"]))):
+                     ("update", c["upd"][0]), ("diff", c["diff"][0]), ("runs", len(runs_of(c))),
+                     ("edits_between_runs", sum(1 for o in c["ops"] if o[0] != "run"))):
             dist[k][str(v)] = dist[k].get(str(v), 0) + 1
         h = hashlib.sha1(case_line(c).encode()).hexdigest()
         if h in seen:
@@ -719,7 +898,10 @@ def run(res, tier, seed, replay_cases=None):
         "evaluations": len(cases), "distinct_nontrivial": nontriv,
         "rule": "cases = (form, chains 1-6, dims 1-3, pdf family, domain none/all/box/half-space/lattice, independent update user/none/"
                 "uniform/gaussian, differential update const_one/const_percent/stateful/random, explicit setPDFvalues or not, start mostly "
-                "inside the domain, 1-3 consecutive runs with burn-up/collect in {0,1,2,5,-1,-2,-3}, cyclic scripted random stream with "
+                "inside the domain, a HISTORY on one TasmanianDREAM object: 1-4 runs with burn-up/collect in {0,1,2,5,-1,-2,-3} and, between runs "
+                "(75%), 1-2 edits through every public entry point that changes the chains or the caches: setState(vector) (8% wrong size), "
+                "setState(callback) overwrite / in-place, setPDFvalues(vector) true or arbitrary values (20% wrong size), setPDFvalues(pdf), "
+                "clearPDFvalues, clearHistory, expandHistory; cyclic scripted random stream with "
                 ">=20% endpoint values 0, 1, 2^-53, 1-2^-53) from VERIF_SEED; corpus/C15 first; run-splitting pairs A=(b,c1),(0,c2).. vs "
                 "B=(b,sum) on the same stream.  non-trivial = >=2 chains, >=2 iterations, at least one proposal accepted and one rejected or "
                 "outside (counted by the direct evaluation); distinct by the hash of the case line; only cases that ran to completion without "
